@@ -104,3 +104,27 @@ def _pct_overlong(case, fail):
     b = case.get("bytes") or []
     return (case.get("k") == "pct" and case.get("utf8") is False and fail.get("what") == "illformed.eq_str"
             and fail.get("observed") is True and _has_overlong(b))
+
+
+@classifier("symbolic-push-skips-empty-segment-on-empty-path")
+def _sym_skip(case, fail):
+    """symbolic_push / symbolic_append: an empty segment pushed while the path is empty is dropped."""
+    op = case.get("op")
+    if op not in ("sym_push", "sym_append"):
+        return False
+    segs = [case.get("arg")] if op == "sym_push" else (case.get("args") or [])
+    if not any(x == [] or x == "" for x in segs):
+        return False
+    if "expected_one_of" not in fail or "observed" not in fail:
+        return False
+
+    def norm(p):
+        while "//" in p:
+            p = p.replace("//", "/")
+        if p.startswith("./"):
+            p = p[2:]
+        if p.startswith("/./"):
+            p = p[2:]
+        return p
+    obs = fail["observed"] or ""
+    return any(norm(obs) == norm(e or "") and len(obs) < len(e or "") for e in fail["expected_one_of"])
